@@ -883,7 +883,7 @@ pub fn case_strategy(o: GenOpts, sets: &'static [&'static str]) -> impl Strategy
 /// Tab; or recall with Up and press Tab; or submit.
 pub fn tab_session_strategy(with_api: bool) -> impl Strategy<Value = Case> {
     let words = vec![
-        "g", "ge", "get", "get-", "get-l", "get-a", "e", "ex", "exi", "exit", "s", "se", "set", "set ", "n", "ne", "net", "h", "he", "hel", "help", "э", "эх", "go", "go-", "hell", "hello", "с", "ст", "сто", "ста", "a", "at", "x", "sec",
+        "g", "ge", "get", "get-", "get-l", "get-a", "e", "ex", "exi", "exit", "s", "se", "set", "set ", "n", "ne", "net", "h", "he", "hel", "help", "э", "эх", "go", "go-", "hell", "hello", "с", "ст", "сто", "ста", "a", "at", "x", "sec", "c", "con",
     ];
     // with_api: what the application or the user does right after a completion (output, prompt change, an edit)
     let after = prop_oneof![
